@@ -60,10 +60,18 @@ impl<'a> Message<'a> {
             } else {
                 0
             };
-            let (rest, last_param) = if let Some((rest, lp)) = trimmed[start_pos..].split_once(':')
-            {
-                // get rest. add first character length to rest length.
-                (&trimmed[0..rest.len() + start_pos], Some(lp))
+            // last (trailing) parameter starts at first ':' that begins a word -
+            // the ':' inside middle parameter doesn't start last parameter.
+            let last_param_pos = trimmed
+                .bytes()
+                .enumerate()
+                .skip(start_pos)
+                .find(|(i, c)| {
+                    *c == b':' && *i > 0 && trimmed.as_bytes()[i - 1].is_ascii_whitespace()
+                })
+                .map(|(i, _)| i);
+            let (rest, last_param) = if let Some(pos) = last_param_pos {
+                (&trimmed[0..pos], Some(&trimmed[pos + 1..]))
             } else {
                 (trimmed, None)
             };
